@@ -164,7 +164,9 @@ def record_import(lines, eol='\n', final_eol=True):
         events.append(dict(lines[sur[0]], obs={'raised': raised}))
     events.append({'ev': 'end', 'snap': snapshot(doc),
                    'obs': {'nstages': len(doc.tree.stages), 'errs': [[x.line, cps(x.encoding)] for x in errors], 'mst': mst,
-                           'shape': [len(s) for s in doc.tree.stages]}})
+                           'shape': [len(s) for s in doc.tree.stages],
+                           'pages': [[cps(str(k)), v.bounding_box.from_x, v.bounding_box.from_y, v.bounding_box.to_x, v.bounding_box.to_y,
+                                      v.from_measure, v.to_measure] for k, v in doc.page_bounding_boxes.items()]}})
     return events, doc, text
 
 
@@ -221,7 +223,7 @@ def record_call(doc, call):
     op = call['op']
     a = call.get('args', {})
     ev = {'ev': 'call', 'op': op, 'args': a}
-    for k in ('exact', 'strict', 'ref'):
+    for k in ('exact', 'strict', 'ref', 'base', 'role', 'malformed'):
         if k in call:
             ev[k] = call[k]
     form = call.get('_form', 0)
